@@ -430,3 +430,67 @@ def static_panic_sites(ctx, A, bodies, rid, since=0):
                     res["samples"].append({"fn": b["def"], "line": blk["tspan"]["line"], "site": site,
                                            "status": "no abstract path reaches this block under the inferred invariants"})
     return res
+
+
+CLIPPY_LINTS = ("arithmetic_side_effects", "indexing_slicing", "unwrap_used", "expect_used", "panic", "unreachable")
+
+
+def clippy_crossref(ctx, A, bodies, rid, since, files):
+    """thorough tier: every site that the never-enabled clippy restriction lints flag as a potential panic must map
+    to at least one enumerated obligation / panic site of this check (completeness cross-reference of the MIR
+    enumeration -- clippy gives no verdict on any of them)"""
+    import json as _json
+    import os
+    import shutil
+    import subprocess
+    import tempfile
+    from ..build import REPO
+    tdir = tempfile.mkdtemp(prefix="clippy-target-")
+    try:
+        cmd = ["cargo", "+nightly", "clippy", "--offline", "--all-features", "-p", "sml-rs", "--lib", "--message-format=json", "--",
+               "-A", "clippy::all"] + [x for l in CLIPPY_LINTS for x in ("-W", "clippy::" + l)]
+        env = dict(os.environ, CARGO_TARGET_DIR=tdir, CARGO_NET_OFFLINE="true")
+        r = subprocess.run(cmd, cwd=REPO, env=env, stdout=subprocess.PIPE, stderr=subprocess.PIPE, text=True)
+    finally:
+        shutil.rmtree(tdir, ignore_errors=True)
+    sites = []
+    for line in r.stdout.splitlines():
+        try:
+            m = _json.loads(line)
+        except ValueError:
+            continue
+        msg = m.get("message") or {}
+        code = (msg.get("code") or {}).get("code") or ""
+        if not code.startswith("clippy::") or code.split("::")[1] not in CLIPPY_LINTS:
+            continue
+        for sp in msg.get("spans", []):
+            if sp.get("is_primary") and any(sp["file_name"].startswith(f) for f in files):
+                sites.append((sp["file_name"], sp["line_start"], sp["line_end"], code))
+    known = set()
+    for rec in A.ip.log[since:]:
+        if rec.get("t") == "obl":
+            known.add((rec["file"], rec["line"]))
+    for S in A.ip.summaries.values():
+        for rec in S.records:
+            if rec.get("t") == "obl":
+                known.add((rec["file"], rec["line"]))
+        for L in S.lifted:
+            known.add((L["rec"]["file"], L["rec"]["line"]))
+    for b in bodies:
+        for blk in b["blocks"]:
+            t = blk["term"]
+            if not blk["cleanup"] and (t["k"] == "assert" or (t["k"] == "call" and any(n in PANIC_FNS for n in callee_names(t)))):
+                known.add((blk["tspan"]["file"], blk["tspan"]["line"]))
+                if "cs_file" in blk["tspan"]:
+                    known.add((blk["tspan"]["cs_file"], blk["tspan"]["cs_line"]))
+    unmapped = []
+    for (f, l0, l1, code) in sites:
+        ctx.count(rid + "-CLIPPY")
+        if not any((f, l) in known for l in range(l0, l1 + 1)):
+            unmapped.append((f, l0, code))
+    for (f, l, code) in unmapped:
+        ctx.violation(rid + "-CLIPPY", "%s|%s" % (f, code), (f, l, ""),
+                      "clippy (%s) flags a potential panic site at %s:%d that maps to no enumerated obligation of this check" % (code, f, l))
+    if r.returncode != 0 and not sites:
+        ctx.violation(rid + "-CLIPPY", "run", ("", 0, ""), "cargo clippy failed: " + r.stderr[-300:])
+    return {"clippy_sites": len(sites), "unmapped": unmapped}
